@@ -349,7 +349,7 @@ func (a *App) ProjectEco(ctx sdk.Context) (*State, *Notes) {
 			w := "batch " + v.Denom
 			s.Batches = append(s.Batches, map[string]any{"key": v.Key, "issuer": Name(v.Issuer), "pk": v.ProjectKey, "denom": v.Denom,
 				"meta": v.Metadata, "start": p.tick(w+" start", v.StartDate), "end": p.tick(w+" end", v.EndDate),
-				"issued": p.tick(w+" issuance", v.IssuanceDate), "open": v.Open, "ck": v.ClassKey})
+				"issued": p.marketOptTick(w+" issuance", v.IssuanceDate).T, "open": v.Open, "ck": v.ClassKey}) // the issuance date is a block time
 		}
 		it.Close()
 	}
